@@ -401,6 +401,7 @@ type TrackingAllocator struct {
 	// FailNewBlock is a fault budget: while > 0 each NewBlock may fail (choice point).
 	FailNewBlock int
 	Violations []string
+	Releases   int // Block.Release calls made by the block list (volatile: pops)
 	// LastWrittenState returns the most recent durably written state (persistent only).
 	LastWrittenState func() *pb.PersistentState
 	RBF       *TrackingRBF
@@ -579,6 +580,7 @@ func (b *trackedBlock) Release() {
 		b.a.violate("Release called twice on the same block (region offset %v)", b.regionOffset())
 	}
 	b.released = true
+	b.a.Releases++
 	b.Block.Release()
 	if b.region != nil && b.region.Incarnation == b.inc {
 		b.region.InList = false
